@@ -151,11 +151,22 @@ def run(tier, seed, replay=None):
             hv_ = jobcheck.parse_Hvals(b_)
             bad_ = None
             for pal_, fl_ in flags_.items():
+                if fl_ & 33:
+                    # ... and an instance of a type with a create function or a default value is never left as it was found: scripts
+                    # write values 1..900 only, so a 0 (fresh storage) can only be an instance nobody initialised
+                    for cid_ in jobcheck.pal_cids(sd[name_], blocks_, pal_):
+                        for h_, comps_ in hv_.items():
+                            if comps_.get(cid_) == '0' and not bad_:
+                                bad_ = (h_, cid_, pal_, 'zero')
                 if fl_ & 1 and fl_ & 32:
                     for cid_ in jobcheck.pal_cids(sd[name_], blocks_, pal_):
                         for h_, comps_ in hv_.items():
                             if comps_.get(cid_) == str(2000 + pal_):
                                 bad_ = (h_, cid_, pal_)
+            if bad_ and len(bad_) == 4:
+                fa = fa + [dict(script=name_, opn=i_, op=b_['op'], tag='H', impl='entity %s component %d reads 0: the instance was never initialised' % (bad_[0], bad_[1]),
+                                model='a type with a create function or a default value is initialised whenever an instance comes into being (%d or %d)' % (1000 + bad_[2], 2000 + bad_[2]))]
+                break
             if bad_:
                 fa = fa + [dict(script=name_, opn=i_, op=b_['op'], tag='H', impl='entity %s component %d holds %d, the bytes of the default value' % (bad_[0], bad_[1], 2000 + bad_[2]),
                                 model='a type with a create function (a C++ type with a constructor) is initialised by it: %d' % (1000 + bad_[2]))]
